@@ -16,15 +16,32 @@ package client
 
 //@ func (*Client).PutItem
 //@   partial
+//@   opaque (*Table).Put
+//@   callsite[C01,C05,C08,C13] (*Client).getTable: arg.tableName == old(input.TableName == nil ? "" : *input.TableName)
+//@   callsite[C01,C05,C08,C13] mapDynamoToTypesPutItemInput: arg.input == input
+//@   callsite[C01,C05,C08,C13] (*Table).Put: arg.t == table && arg.input != nil && arg.input.ConditionExpression == old(input.ConditionExpression) && arg.input.ExpressionAttributeNames == old(input.ExpressionAttributeNames) &&
+//@                dom(arg.input.Item) == old(dom(input.Item)) && dom(arg.input.ExpressionAttributeValues) == old(dom(input.ExpressionAttributeValues))
 //@   ensures[C15] old(fd.forceFailureErr) != nil ==> result1 == old(fd.forceFailureErr) && unchangedAll()
 //@ func (*Client).DeleteItem
 //@   partial
+//@   opaque (*Table).Delete
+//@   callsite[C01,C05,C08,C13] (*Client).getTable: arg.tableName == old(input.TableName == nil ? "" : *input.TableName)
+//@   callsite[C01,C05,C08,C13] mapDynamoToTypesDeleteItemInput: arg.input == input
+//@   callsite[C01,C05,C08,C13] (*Table).Delete: arg.t == table && arg.input != nil && arg.input.ConditionExpression == old(input.ConditionExpression) &&
+//@                dom(arg.input.Key) == old(dom(input.Key)) && dom(arg.input.ExpressionAttributeValues) == old(dom(input.ExpressionAttributeValues))
 //@   ensures[C15] old(fd.forceFailureErr) != nil ==> result1 == old(fd.forceFailureErr) && unchangedAll()
 //@ func (*Client).UpdateItem
 //@   partial
+//@   opaque (*Table).Update
+//@   callsite[C01,C05,C08,C13] (*Client).getTable: arg.tableName == old(input.TableName == nil ? "" : *input.TableName)
+//@   callsite[C01,C05,C08,C13] mapDynamoToTypesUpdateItemInput: arg.input == input
+//@   callsite[C01,C05,C08,C13] (*Table).Update: arg.t == table && arg.input != nil && arg.input.ConditionExpression == old(input.ConditionExpression) && arg.input.ExpressionAttributeNames == old(input.ExpressionAttributeNames) &&
+//@                (old(input.UpdateExpression) != nil ==> arg.input.UpdateExpression == old(*input.UpdateExpression)) && dom(arg.input.Key) == old(dom(input.Key)) && dom(arg.input.ExpressionAttributeValues) == old(dom(input.ExpressionAttributeValues))
 //@   ensures[C15] old(fd.forceFailureErr) != nil ==> result1 == old(fd.forceFailureErr) && unchangedAll()
 //@ func (*Client).GetItem
 //@   partial
+//@   callsite[C01,C13] (*Client).getTable: arg.tableName == old(input.TableName == nil ? "" : *input.TableName)
+//@   callsite[C01,C13] keySchema.GetKey: arg.ks == table.KeySchema && arg.attrs == table.AttributesDef && dom(arg.item) == old(dom(input.Key))
 //@   ensures[C15] old(fd.forceFailureErr) != nil ==> result1 == old(fd.forceFailureErr) && unchangedAll()
 //@ func (*Client).Query
 //@   partial
@@ -296,3 +313,22 @@ package client
 //@ func mapKnownError
 //@   partial
 //@   ensures[C18] err != nil ==> result != nil
+
+// ---- C01 / C05 / C08 / C13 at the client: single-item operations reach the core unchanged ---------------------
+// Each data method resolves its table by the request's name and hands the core operation a request whose item / key
+// (same attribute names), condition, update expression and name aliases are the caller's; what the core operation does
+// with it is the subject of the contracts in package core (opaque here).
+//@ func mapDynamoToTypesPutItemInput
+//@   ensures[C01,C05] (result == nil) == (input == nil)
+//@   ensures[C01,C05] input != nil ==> fresh(result) && result.ConditionExpression == input.ConditionExpression && result.ExpressionAttributeNames == input.ExpressionAttributeNames &&
+//@                dom(result.Item) == dom(input.Item) && dom(result.ExpressionAttributeValues) == dom(input.ExpressionAttributeValues)
+//@ func mapDynamoToTypesDeleteItemInput
+//@   partial
+//@   ensures[C01,C05] (result == nil) == (input == nil)
+//@   ensures[C01,C05] input != nil ==> fresh(result) && result.ConditionExpression == old(input.ConditionExpression) &&
+//@                dom(result.Key) == old(dom(input.Key)) && dom(result.ExpressionAttributeValues) == old(dom(input.ExpressionAttributeValues))
+//@ func mapDynamoToTypesUpdateItemInput
+//@   partial
+//@   requires input != nil
+//@   ensures[C01,C05] fresh(result) && result != nil && result.ConditionExpression == old(input.ConditionExpression) && result.ExpressionAttributeNames == old(input.ExpressionAttributeNames) &&
+//@                (old(input.UpdateExpression) != nil ==> result.UpdateExpression == old(*input.UpdateExpression)) && dom(result.Key) == old(dom(input.Key)) && dom(result.ExpressionAttributeValues) == old(dom(input.ExpressionAttributeValues))
